@@ -28,11 +28,15 @@ pub trait MapValidVec<T: IsNone>: Vec1View<T> {
             return Box::new(std::iter::repeat_n(value, len));
         }
         match n {
+            // the first n places have no lagged element: they hold the fill value itself
             n if n > 0 => Box::new(
                 std::iter::repeat_n(value, n_abs)
-                    .chain(self.titer().take(len - n_abs))
-                    .zip(self.titer())
-                    .map(|(a, b)| b - a)
+                    .chain(
+                        self.titer()
+                            .take(len - n_abs)
+                            .zip(self.titer().skip(n_abs))
+                            .map(|(a, b)| b - a),
+                    )
                     .to_trust(len),
             ),
             n if n < 0 => Box::new(
